@@ -13,6 +13,8 @@ The label of every abstract value is its history term, so rules compare strings 
 """
 from __future__ import annotations
 
+import ast
+
 from .absint import AObj, BoundMethod, ClassRef, Interp, Opaque, OpaqueMethod, Raised, Tok, to_text, EnumV, FlagV, Sym
 from .report import AnalysisError
 
@@ -58,6 +60,18 @@ class Runner:
         f = {"ext": ext, "il_ops_holder": holder, "parameters": {}, "imm_set_effect_list": [],
              "sub_routines": Opaque("self.sub_routines"), "macros": Opaque("self.macros"),
              "return_type": Opaque("self.return_type"), "code_format": Opaque("self.code_format"), "arch": Opaque("arch")}
+        # any other attribute the constructor sets holds an arbitrary history of this transformer (unknown content):
+        # a callback that consults it (a cache, a counter) forks on what it finds there
+        try:
+            init = self.idx.func("RZILTransformer.__init__")
+        except Exception:
+            init = None
+        if init is not None:
+            for n in ast.walk(init.node):
+                tgts = n.targets if isinstance(n, ast.Assign) else [n.target] if isinstance(n, (ast.AnnAssign, ast.AugAssign)) else []
+                for t in tgts:
+                    if isinstance(t, ast.Attribute) and isinstance(t.value, ast.Name) and t.value.id == "self" and t.attr not in f:
+                        f[t.attr] = Opaque(f"self.{t.attr}")
         f.update(over)
         return AObj("RZILTransformer", f, label="self")
 
